@@ -5,9 +5,51 @@ import ast
 
 from __main__ import Fact, const_num, lean_str
 
+import importlib.util
+import os
+import sys
+
+
+def _load_norm():
+    """tools/extractors/normalise_rpc.py, loaded once per process under a name of its own (sys.path is left alone)."""
+    name = "jrv_normalise_rpc"
+    if name not in sys.modules:
+        spec = importlib.util.spec_from_file_location(
+            name, os.path.join(os.path.dirname(os.path.abspath(__file__)), "normalise_rpc.py"))
+        mod = importlib.util.module_from_spec(spec)
+        sys.modules[name] = mod
+        spec.loader.exec_module(mod)
+    return sys.modules[name]
+
+
+norm = _load_norm()
+
+
 PROPERTIES = ["C06"]
 
 _OPS = {ast.LtE: True, ast.Lt: False}
+
+
+def _chained(fn):
+    """A copy of the function in which `lo <= x and x <= hi` (either operand spelt either way round: `x >= lo`) is the
+    chained comparison `lo <= x <= hi` — the same two comparisons in the same order on a local name."""
+    fn = norm.clone(fn)
+    flip = {ast.Gt: ast.Lt, ast.GtE: ast.LtE}
+    for n in list(ast.walk(fn)):
+        if isinstance(n, ast.BoolOp) and isinstance(n.op, ast.And) and len(n.values) == 2 \
+                and all(isinstance(v, ast.Compare) and len(v.ops) == 1 for v in n.values):
+            parts = []
+            for v in n.values:
+                l, op, r = v.left, type(v.ops[0]), v.comparators[0]
+                if op in flip:
+                    l, op, r = r, flip[op], l
+                parts.append((l, op, r))
+            (l1, o1, r1), (l2, o2, r2) = parts
+            if o1 in _OPS and o2 in _OPS and isinstance(r1, ast.Name) and isinstance(l2, ast.Name) and r1.id == l2.id \
+                    and const_num(l1) is not None and const_num(r2) is not None:
+                new = ast.copy_location(ast.Compare(left=l1, ops=[o1(), o2()], comparators=[r1, r2]), n)
+                norm._replace_node(fn, n, ast.fix_missing_locations(new))
+    return fn
 
 
 def _proto_range(fn):
@@ -173,7 +215,10 @@ def _call_sites(src):
 
 
 def facts(src):
+    src = norm.nsource(src)
     fn = src.func("jsonrpc", "check_for_errors")
+    if fn is not None:
+        fn = _chained(fn)
     out = []
     rng = _proto_range(fn) if fn is not None else None
     out.append(Fact(
